@@ -4,7 +4,8 @@
    fully wired).  active/inflow/outflow are the quantities calculate_highwater computes; alive/bypass are the
    cuts of the statement. *)
 From Coq Require Import List String QArith Qminmax.
-From Bq Require Import Highwater HighwaterFacts.
+From Bq Require Import Routine Highwater HighwaterFacts.
+From BqGen Require Import GenHighwater.
 Import ListNotations.
 Open Scope Q_scope.
 
@@ -26,6 +27,20 @@ Print Assumptions C16_highwater_is_max_cut.
 Theorem C16_max_dominates : forall m rest x, In x (m :: rest) -> x <= fold_right Qmax m rest.
 Proof. exact max_ge_each. Qed.
 Print Assumptions C16_max_dominates.
+
+(* what the quantities above are made of is read off derived_resources.py on every run (GenHighwater.v): inside the loop
+   the watermark recorded for a child is (active flow - the child's inflow + the child's highwater), the new active flow
+   is (active flow - the child's inflow + the child's outflow); input and through ports flow in, output and through
+   ports flow out; [active] and [code_watermarks] are DEFINED through these translated expressions *)
+Theorem C16_translated_loop_body : forall a i o h : Q,
+  gen_hw_mark a i o h == a - i + h /\ gen_hw_next a i o h == a - i + o.
+Proof. intros; unfold gen_hw_mark, gen_hw_next; split; reflexivity. Qed.
+Print Assumptions C16_translated_loop_body.
+
+Theorem C16_translated_flow_directions :
+  gen_hw_inflow_dirs = [DIn; DThrough] /\ gen_hw_outflow_dirs = [DOut; DThrough] /\ gen_hw_shape_checked = true.
+Proof. repeat split; reflexivity. Qed.
+Print Assumptions C16_translated_flow_directions.
 
 (* non-vacuity: in(3) -> a -> b -> out, plus a wire in(2) -> out bypassing both children *)
 Example C16_nonvacuous :
